@@ -20,7 +20,11 @@ let compile_observable (cfg : wcfg) (p : program) : string =
           Printf.sprintf "v=%d names=[%s] mappings=%s" (int_of_z sm.smv_version)
             (String.concat "," (List.map (fun n -> hx (string_of_str n)) sm.smv_names))
             (string_of_str sm.smv_mappings) in
-    "code=" ^ hx (string_of_str r.r_code) ^ " " ^ m
+    (* debug.ToString(program): the printer run through a zero-valued CodeWriter; reported
+       for the compact configuration without map (it must equal the compact code) *)
+    let dbg = if (not cfg.w_pretty) && (not cfg.w_map)
+              then " dbg=" ^ hx (string_of_str (run_wops (cfg_compact false) (write_program p)).w_buf) else "" in
+    "code=" ^ hx (string_of_str r.r_code) ^ dbg ^ " " ^ m
 
 let split3 (line : string) =
   let i = String.index line ' ' in
